@@ -90,7 +90,11 @@ func genDesc(r *vf.Rand, i int) Desc {
 	}
 	c := add(prog.Node{Op: kind, In: []int{w}, Cache: "c"})
 	head := false
-	switch r.Intn(6) {
+	switch r.Intn(7) {
+	case 6:
+		// the cache operator wrapped by Prefixed (a type-only wrapper), then keyed by it
+		pf := add(prog.Node{Op: "prefixed", In: []int{c}, N: 1})
+		add(prog.Node{Op: "reduce", In: []int{pf}, Comb: "sum"})
 	case 0:
 		add(prog.Node{Op: "map", In: []int{c}, Exprs: []prog.Expr{{K: "col", I: 1}, {K: "col", I: 0}}})
 	case 1:
